@@ -58,20 +58,23 @@ type mesherCase struct {
 	Procs  []int         `json:"procs"`
 }
 
-// dcrepair (DualContouring with Repair) is run for the race detector only: its result is not reproducible even
-// single-threaded (the repair pass visits singular edges / vertices in Go map order; registered once as finding
-// C12-dc-repair-order, whose clause C12/dc/configurations makes the identical GOMAXPROCS x MaxGos x BufferSize
-// comparison and resumes it by itself once the library is fixed), so "the answer of sequential use" does not exist
-// to compare with.  dcclip keeps the exact comparison for the Clip option that used to ride along with Repair.
-var mesherAPIs = []string{"mc", "mc", "filter", "search", "c2f", "dc", "dc", "dcclip", "dcrepair", "ms", "mssearch", "msc2f"}
+// dcrepair is DualContouring with Repair and Clip (the repair pass runs after the parallel stages and used to visit
+// singular edges / vertices in Go map order: not reproducible even single-threaded until fix 968663e, registered
+// under C12); dcclip is Clip alone.  Both are compared exactly like the others.
+// dcinterior is MeshInterior: the workers also collect the interior end points of the bisected edges (compared
+// as a sorted list, appended to the face list as degenerate faces).
+var mesherAPIs = []string{"mc", "mc", "filter", "search", "interior", "c2f", "dc", "dc", "dcclip", "dcinterior", "dcrepair", "ms", "mssearch", "msc2f"}
 
-func isDC(api string) bool { return api == "dc" || api == "dcclip" || api == "dcrepair" }
+func isDC(api string) bool {
+	return api == "dc" || api == "dcclip" || api == "dcinterior" || api == "dcrepair"
+}
 
 func genMesherCase(t *rapid.T) mesherCase {
 	c := mesherCase{API: pick(t, mesherAPIs, "api"), Procs: genProcList(t)}
 	c.Iters = gen.Int(t, 0, 4, "iters")
 	twoD := c.API == "ms" || c.API == "mssearch" || c.API == "msc2f"
-	lattice := gen.Int(t, 0, 1, "lattice") == 0 && c.API != "c2f" && c.API != "msc2f" && !isDC(c.API)
+	// (dual contouring of voxel solids is where singular edges and vertices, hence repairs, come from)
+	lattice := gen.Int(t, 0, 1, "lattice") == 0 && c.API != "c2f" && c.API != "msc2f"
 	switch {
 	case lattice && twoD:
 		l := gen.Lattice2Gen(t, 9, "lat2")
@@ -93,7 +96,9 @@ func genMesherCase(t *rapid.T) mesherCase {
 		}
 	}
 	if isDC(c.API) {
-		c.Delta = gen.F(t, 0.15, 0.3, "dcdelta")
+		if c.Lat == nil {
+			c.Delta = gen.F(t, 0.15, 0.3, "dcdelta")
+		}
 		c.MaxGos = []int{0, 0, 1, 2, 7}[gen.Int(t, 0, 4, "maxgos")]
 		c.Buf = []int{0, 0, 500, 5000}[gen.Int(t, 0, 3, "buf")]
 	}
@@ -155,11 +160,30 @@ func checkMesher(c mesherCase, o *kit.Obs) error {
 			return canonTris(model3d.MarchingCubesFilter(s, always3, c.Delta))
 		case "search":
 			return canonTris(model3d.MarchingCubesSearch(s, c.Delta, c.Iters))
+		case "interior":
+			// the search step also returns, per vertex, the interior end point of its bisection (filled by a worker pool)
+			m, interior := model3d.MarchingCubesInterior(s, c.Delta, c.Iters)
+			var extra []kit.Tri
+			interior.Range(func(k, v model3d.Coord3D) bool {
+				extra = append(extra, kit.Tri{m3.V3(k), m3.V3(v), m3.V3(v)})
+				return true
+			})
+			sort.Slice(extra, func(i, j int) bool { return triLess(extra[i], extra[j]) })
+			return append(canonTris(m), extra...)
 		case "c2f":
 			return canonTris(model3d.MarchingCubesC2F(s, c.Big, c.Delta, 0, c.Iters))
-		case "dc", "dcclip", "dcrepair":
+		case "dc", "dcclip", "dcinterior", "dcrepair":
 			dc := &model3d.DualContouring{S: model3d.SolidSurfaceEstimator{Solid: s}, Delta: c.Delta, MaxGos: c.MaxGos, BufferSize: c.Buf,
-				Repair: c.API == "dcrepair", Clip: c.API != "dc"}
+				Repair: c.API == "dcrepair", Clip: c.API == "dcclip" || c.API == "dcrepair"}
+			if c.API == "dcinterior" {
+				m, pts := dc.MeshInterior()
+				var extra []kit.Tri
+				for _, p := range pts {
+					extra = append(extra, kit.Tri{m3.V3(p), m3.V3(p), m3.V3(p)})
+				}
+				sort.Slice(extra, func(i, j int) bool { return triLess(extra[i], extra[j]) })
+				return append(canonTris(m), extra...)
+			}
 			return canonTris(dc.Mesh())
 		}
 		panic("c13: unknown mesher " + c.API)
@@ -193,15 +217,6 @@ func checkMesher(c mesherCase, o *kit.Obs) error {
 			ref3, ref2 = got3, got2
 			if len(ref3)+len(ref2) > 0 && maxInt(c.Procs) > 1 {
 				o.NonTrivial()
-			}
-			continue
-		}
-		if c.API == "dcrepair" {
-			// race detector only (see mesherAPIs); the output must still be a mesh of finite faces
-			for k, t := range got3 {
-				if !t[0].Finite() || !t[1].Finite() || !t[2].Finite() {
-					return fmt.Errorf("dcrepair at GOMAXPROCS=%d: face %d of the sorted face list is %v", p, k, t)
-				}
 			}
 			continue
 		}
@@ -312,6 +327,7 @@ type renderCase struct {
 	Procs    []int   `json:"procs"`
 	Material string  `json:"material"`
 	AA       float64 `json:"aa"`
+	Conc     int     `json:"conc,omitempty"` // >= 2: that many goroutines call Render on the ONE renderer value at the same time
 }
 
 func genRenderCase(t *rapid.T) renderCase {
@@ -321,6 +337,7 @@ func genRenderCase(t *rapid.T) renderCase {
 		Material: pick(t, []string{"lambert", "phong", "colorfunc"}, "material"), AA: gen.F(t, 0, 1, "aa")}
 	c.Cam = gen.Dir3(t, "cam").Unit().Scale(gen.F(t, 5, 8, "camdist"))
 	c.Light = gen.Dir3(t, "light").Unit().Scale(gen.F(t, 6, 9, "lightdist"))
+	c.Conc = []int{0, 2, 2, 3}[gen.Int(t, 0, 3, "conc")]
 	return c
 }
 
@@ -352,28 +369,27 @@ func checkRender(c renderCase, o *kit.Obs) error {
 	var render func(img *render3d.Image)
 	deterministic := false
 	switch c.Renderer {
+	// one renderer value per case: every Render call below, sequential or concurrent, goes through it
 	case "caster":
 		deterministic = true
-		render = func(img *render3d.Image) { (&render3d.RayCaster{Camera: cam, Lights: lights}).Render(img, scene) }
+		r := &render3d.RayCaster{Camera: cam, Lights: lights}
+		render = func(img *render3d.Image) { r.Render(img, scene) }
 	case "tracer0":
 		// no recursion, one sample, no antialiasing: nothing random is left
 		deterministic = true
-		render = func(img *render3d.Image) {
-			(&render3d.RecursiveRayTracer{Camera: cam, Lights: lights, MaxDepth: 0, NumSamples: 1}).Render(img, scene)
-		}
+		r := &render3d.RecursiveRayTracer{Camera: cam, Lights: lights, MaxDepth: 0, NumSamples: 1}
+		render = func(img *render3d.Image) { r.Render(img, scene) }
 	case "tracer":
-		render = func(img *render3d.Image) {
-			(&render3d.RecursiveRayTracer{Camera: cam, Lights: lights, MaxDepth: c.Depth, NumSamples: c.Samples, Antialias: c.AA,
-				MinSamples: 2, MaxStddev: 0.05}).Render(img, scene)
-		}
+		r := &render3d.RecursiveRayTracer{Camera: cam, Lights: lights, MaxDepth: c.Depth, NumSamples: c.Samples, Antialias: c.AA,
+			MinSamples: 2, MaxStddev: 0.05}
+		render = func(img *render3d.Image) { r.Render(img, scene) }
 	case "bidir":
 		lm := model3d.NewMeshIcosphere(centre.Add(m3.C3(c.Light)), 1.5, 1)
 		light := render3d.NewMeshAreaLight(lm, render3d.NewColor(20))
 		scene = render3d.JoinedObject{obj, light}
-		render = func(img *render3d.Image) {
-			(&render3d.BidirPathTracer{Camera: cam, Light: light, MaxDepth: c.Depth + 1, MinDepth: 1, NumSamples: c.Samples, Antialias: c.AA,
-				RouletteDelta: 0.05, PowerHeuristic: 2}).Render(img, scene)
-		}
+		r := &render3d.BidirPathTracer{Camera: cam, Light: light, MaxDepth: c.Depth + 1, MinDepth: 1, NumSamples: c.Samples, Antialias: c.AA,
+			RouletteDelta: 0.05, PowerHeuristic: 2}
+		render = func(img *render3d.Image) { r.Render(img, scene) }
 	}
 	// which pixels see anything (primary rays; only meaningful without antialiasing jitter)
 	caster := cam.Caster(float64(c.Size)-1, float64(c.Size)-1)
@@ -392,33 +408,53 @@ func checkRender(c renderCase, o *kit.Obs) error {
 		o.NonTrivial()
 	}
 	var ref []render3d.Color
-	for i, p := range c.Procs {
-		img := render3d.NewImage(c.Size, c.Size)
-		withProcs(p, func() { render(img) })
+	checkImg := func(img *render3d.Image, how string) error {
 		for k, col := range img.Data {
 			for _, v := range []float64{col.X, col.Y, col.Z} {
 				if math.IsNaN(v) || math.IsInf(v, 0) || v < 0 {
-					return fmt.Errorf("%s at GOMAXPROCS=%d: pixel %d is %v (not a finite non-negative colour)", c.Renderer, p, k, col)
+					return fmt.Errorf("%s %s: pixel %d is %v (not a finite non-negative colour)", c.Renderer, how, k, col)
 				}
 			}
 			jitter := c.Renderer == "tracer" || c.Renderer == "bidir"
 			if !hit[k] && !(jitter && c.AA != 0) && col != (render3d.Color{}) {
-				return fmt.Errorf("%s at GOMAXPROCS=%d: pixel %d is %v although its ray misses the scene", c.Renderer, p, k, col)
+				return fmt.Errorf("%s %s: pixel %d is %v although its ray misses the scene", c.Renderer, how, k, col)
 			}
 			if hit[k] && c.Renderer != "bidir" && !(jitter && c.AA != 0) && col.Sum() <= 0 {
 				// every material has a positive ambient term, which both renderers add at the first hit
-				return fmt.Errorf("%s at GOMAXPROCS=%d: pixel %d is black although its ray hits a surface with ambient colour", c.Renderer, p, k)
+				return fmt.Errorf("%s %s: pixel %d is black although its ray hits a surface with ambient colour", c.Renderer, how, k)
 			}
 		}
-		if i == 0 {
+		if ref == nil {
 			ref = img.Data
-			continue
+			return nil
 		}
 		if deterministic {
 			for k := range ref {
 				if img.Data[k] != ref[k] {
-					return fmt.Errorf("%s at GOMAXPROCS=%d: pixel %d is %v, at GOMAXPROCS=1 it is %v", c.Renderer, p, k, img.Data[k], ref[k])
+					return fmt.Errorf("%s %s: pixel %d is %v, the first render at GOMAXPROCS=1 gave %v", c.Renderer, how, k, img.Data[k], ref[k])
 				}
+			}
+		}
+		return nil
+	}
+	for _, p := range c.Procs {
+		img := render3d.NewImage(c.Size, c.Size)
+		withProcs(p, func() { render(img) })
+		if err := checkImg(img, fmt.Sprintf("at GOMAXPROCS=%d", p)); err != nil {
+			return err
+		}
+	}
+	if c.Conc >= 2 {
+		// concurrent use of the one renderer (and scene): every goroutine renders its own image
+		o.Labelf("concurrent-renders:%d", c.Conc)
+		imgs := make([]*render3d.Image, c.Conc)
+		for g := range imgs {
+			imgs[g] = render3d.NewImage(c.Size, c.Size)
+		}
+		runConcurrently(c.Conc, maxInt(c.Procs), func(g int) { render(imgs[g]) })
+		for g, img := range imgs {
+			if err := checkImg(img, fmt.Sprintf("rendered by goroutine %d of %d sharing the renderer", g, c.Conc)); err != nil {
+				return err
 			}
 		}
 	}
@@ -513,6 +549,26 @@ func checkKMeans(c kmeansCase, o *kit.Obs) error {
 		for i := range ref {
 			if d := kit.V3(km.Centers[i]).Dist(ref[i]); !(d <= 1e-9) {
 				return fmt.Errorf("KMeans.Iterate (GOMAXPROCS=%d, step %d): centre %d is %v, the reference step gives %v", c.Procs, it, i, km.Centers[i], ref[i])
+			}
+		}
+		// Assign (a parallel map over the vectors) against the reference assignment to the new centres
+		var assign []int
+		withProcs(c.Procs, func() { assign = km.Assign(data) })
+		if len(assign) != len(c.Data) {
+			return fmt.Errorf("KMeans.Assign returned %d indices for %d vectors", len(assign), len(c.Data))
+		}
+		for i, p := range c.Data {
+			best, second, bi := math.Inf(1), math.Inf(1), 0
+			for j, ctr := range km.Centers {
+				d := p.Sub(kit.V3(ctr)).Dot(p.Sub(kit.V3(ctr)))
+				if d < best {
+					second, best, bi = best, d, j
+				} else if d < second {
+					second = d
+				}
+			}
+			if second-best > 1e-12*(1+best) && assign[i] != bi {
+				return fmt.Errorf("KMeans.Assign (GOMAXPROCS=%d, step %d): vector %d assigned to centre %d, the nearest centre is %d", c.Procs, it, i, assign[i], bi)
 			}
 		}
 		if len(data) != len(c.Data) {
